@@ -50,13 +50,13 @@ def buildLevel : (fuel : Nat) → (d : Nat) → List (Nat × SNode) → List STr
 `Quirks.current` is what `tools/extractors/valid.py` found in the source tree the check runs against; the property theorems are
 stated for `Quirks.fixed` (full strength) with `_fails` witnesses for the defective variants. -/
 structure Quirks where
-  /-- F60: `lyd_validate_unique` uses a leaf's schema default whatever its ancestors -/
+  /-- F175: `lyd_validate_unique` uses a leaf's schema default whatever its ancestors -/
   uniqueDefaultAlways : Bool
-  /-- F65: `lyd_new_implicit` completes only the innermost case of the data node it found -/
+  /-- F180: `lyd_new_implicit` completes only the innermost case of the data node it found -/
   implicitInnerCase : Bool
-  /-- F66: `lyd_validate_autodel_case_dflt` looks at the innermost case only -/
+  /-- F188: `lyd_validate_autodel_case_dflt` looks at the innermost case only -/
   autodelDirectCase : Bool
-  /-- F63: `lyd_val_diff_add` records the deletion of a user-ordered instance without its original anchor -/
+  /-- F178: `lyd_val_diff_add` records the deletion of a user-ordered instance without its original anchor -/
   valDiffNoDeleteAnchor : Bool
   /-- F17: `lyd_is_default` compares a leaf-list instance with any single default -/
   isDefaultAnyOne : Bool
